@@ -42,7 +42,9 @@ func newExec(p *Program, cs *Contracts, fn *ssa.Function, con *Contract, prop st
 func (e *Exec) reset() {
 	e.vc = &VC{declared: map[string]bool{}}
 	e.vals = map[ssa.Value]Value{}
-	e.compSort = map[string]string{}
+	if e.compSort == nil {
+		e.compSort = map[string]string{} // kept across the discovery and the real pass: a name determines its sort
+	}
 	e.compInit = map[string]string{}
 	e.nfresh = 0
 	e.blockIn = map[*ssa.BasicBlock]*blockCtx{}
@@ -283,6 +285,10 @@ func (e *Exec) run() {
 	}
 	for _, fv := range fn.FreeVars {
 		addParam(fv, fv.Name())
+		// a free variable is the address of a captured variable: never nil
+		if isPointer(fv.Type()) {
+			e.assume("(not (= " + e.vals[fv].S[0] + " 0))")
+		}
 	}
 	if fn.Signature.Recv() != nil && isPointer(fn.Signature.Recv().Type()) && len(fn.Params) > 0 {
 		e.assume("(not (= " + e.vals[fn.Params[0]].S[0] + " 0))")
